@@ -12,10 +12,11 @@ LEVEL = 'proof'
 THEORIES = ['theories/L5Cover/BoxesProofs.vo',
             'theories/L5Cover/MinCoverProofs.vo',
             'theories/L5Cover/CoverEnumProofs.vo',
-            'theories/L5Cover/CoverEnumBounded4.vo']
+            'theories/L5Cover/CoverEnumBounded4.vo',
+            'theories/L5Cover/CoverEnumRefuted.vo']
 
 HEADER = cq.HEADER + ('From Omega Require Import L5Cover.MinCover '
-                      'L5Cover.CoverEnum.\n')
+                      'L5Cover.CoverEnum L5Cover.CoverEnumOld.\n')
 F2_KEY = 'enumerate_mincovers_below_assert'
 CORES3 = [126, 189, 219, 231]
 
@@ -128,7 +129,25 @@ def coq_group(i, inst, res):
     terms.append(f'match enum_minimize {p}rs pick_first {p}f {p}care with '
                  f'inl M => same_familyb M {p}R | inr _ => false end')
     keys.append('model')
+    terms.append(old_model_term(p))
+    keys.append('old_f2')
     return (defs, terms), keys
+
+
+def old_model_term(p):
+    """Does the model of the UNREPAIRED code stop at assertion 419/425 ?
+    (statistics only: which instances fail depends on the order in which
+    dd enumerates a set.)"""
+    return (f'is_f2_error (enum_minimize_unrepaired {p}rs pick_first '
+            f'{p}f {p}care)')
+
+
+def coq_group_failed(i, inst, res):
+    names = res['names']
+    idx = [names.index(x) for x in res['xs']]
+    p = f'i{i}_'
+    defs = cq.instance_defs(p, inst, res['limits'], idx)
+    return (defs, [old_model_term(p)]), ['old_f2']
 
 
 def correspond(ctx):
@@ -151,6 +170,10 @@ def correspond(ctx):
                     'cover_enum.minimize raises AssertionError in '
                     f'_enumerate_mincovers_below (line {err["frames"][-1][1]})',
                     inst, impl=err, key=F2_KEY, property_fails=True))
+                if 'xs' in res and sorted(res['xs']) == sorted(res['support']):
+                    g, keys = coq_group_failed(i, inst, res)
+                    groups.append(g)
+                    allkeys += [(i, k) for k in keys]
             else:
                 mism.append(Mismatch(
                     'cover_enum.minimize raised ' + err['type'] + ' in '
@@ -169,7 +192,13 @@ def correspond(ctx):
         allkeys += [(i, k) for k in keys]
     vals = ctx.eval_groups('corr', HEADER, groups,
                            shard=700 if ctx.thorough else 80, timeout=2400)
+    oldstat = dict(both_fail=0, impl_only=0, model_only=0, neither=0)
     for (i, k), ok in zip(allkeys, vals):
+        if k == 'old_f2':
+            impl_f2 = 'error' in results[i]
+            oldstat['both_fail' if impl_f2 and ok else 'impl_only' if impl_f2
+                    else 'model_only' if ok else 'neither'] += 1
+            continue
         if ok:
             continue
         kind, inst = jobs[i]
@@ -213,7 +242,8 @@ def correspond(ctx):
     ctx.extra['correspondence'] = dict(
         instances=len(jobs), by_kind=kinds, comparisons=len(vals),
         mismatches=len([m for m in mism if m.key is None]),
-        f2_class_instances=f2, backends=['autoref', 'cudd'])
+        f2_class_instances=f2, unrepaired_model_vs_impl_f2=oldstat,
+        backends=['autoref', 'cudd'])
     # exercise the search oracle
     orc = 0
     for (kind, inst), res in list(zip(jobs, results))[:: max(1, len(jobs) // 10)]:
